@@ -417,7 +417,7 @@ fn strategy() -> BoxedStrategy<Case> {
         2 => prop::collection::vec(prop_oneof![3 => Just(0usize), 3 => Just(1usize), 2 => 2usize..12, 1 => Just(1usize << 40)], 1..=6).prop_map(Shape::Dyn),
         2 => (prop::collection::vec(prop_oneof![3 => Just(0usize), 3 => Just(1usize), 2 => 2usize..12, 1 => Just(1usize << 40)], 2..=6), 1u8..4).prop_map(|(w, u)| Shape::DynGrown(w, u)),
     ];
-    (shape, prop::collection::vec(any::<u64>(), 0..16), 1u8..6, prop::bool::weighted(0.15))
+    (shape, crate::rngs::script_strategy(16), 1u8..6, prop::bool::weighted(0.15))
         .prop_map(|(shape, script, draws, empty_population)| Case { shape, script, draws, empty_population })
         .boxed()
 }
